@@ -657,3 +657,55 @@ Module PreFix.
                                 evalR 50 D (atom 1000 (tFnPtr [A])) = Some true.
   Proof. split; reflexivity. Qed.
 End PreFix.
+
+(** ** Closed conjunctions / negations of atoms (single queries such as [G1, not { G2 }]). *)
+Inductive rgoal : Type :=
+| RAtom (a : ty)
+| RAnd (g1 g2 : rgoal)
+| RNot (g : rgoal).
+
+Fixpoint satR (D : decls) (g : rgoal) : Prop :=
+  match g with
+  | RAtom a => holdsR D a
+  | RAnd g1 g2 => satR D g1 /\ satR D g2
+  | RNot g' => ~ satR D g'
+  end.
+
+Fixpoint evalRg (fuel : nat) (D : decls) (g : rgoal) : option bool :=
+  match g with
+  | RAtom a => evalR fuel D a
+  | RAnd g1 g2 => and3 (evalRg fuel D g1) (evalRg fuel D g2)
+  | RNot g' => option_map negb (evalRg fuel D g')
+  end.
+
+Theorem evalRg_correct : forall D, wfD D -> forall fuel g b,
+  evalRg fuel D g = Some b -> (b = true <-> satR D g).
+Proof.
+  intros D Hwf fuel g. induction g as [a|g1 IH1 g2 IH2|g IH]; intros b H; cbn [evalRg satR] in *.
+  - now apply (evalR_correct D Hwf fuel).
+  - destruct (evalRg fuel D g1) as [b1|] eqn:E1; destruct (evalRg fuel D g2) as [b2|] eqn:E2.
+    + specialize (IH1 _ eq_refl). specialize (IH2 _ eq_refl).
+      destruct b1, b2; cbn [and3] in H; inversion H; subst; intuition congruence.
+    + specialize (IH1 _ eq_refl). destruct b1; cbn [and3] in H; [discriminate|].
+      inversion H; subst. intuition congruence.
+    + specialize (IH2 _ eq_refl). destruct b2; cbn [and3] in H; [discriminate|].
+      inversion H; subst. intuition congruence.
+    + discriminate.
+  - destruct (evalRg fuel D g) as [b1|] eqn:E1; [|discriminate].
+    cbn [option_map] in H. inversion H; subst. specialize (IH _ eq_refl).
+    destruct b1; cbn [negb]; intuition congruence.
+Qed.
+
+Module CycleFailExample.
+  (* #[auto] Send = 1000; 0 = NotSend (impl !Send), 1 = Node { data: NotSend, label: Label, edge: Edge },
+     2 = Edge { target: Node }, 3 = Label { of: Edge }: the cycle Node <-> Edge leans on a false leaf *)
+  Definition T (i : N) := tAdt i [].
+  Definition D : decls := mkDecls
+    [mkAdt 0 0 true false [[]]; mkAdt 1 0 true false [[T 0; T 3; T 2]]; mkAdt 2 0 true false [[T 1]]; mkAdt 3 0 true false [[T 2]]]
+    [mkTrait 1000 true false None] [mkImpl false (atom 1000 (T 0)) []].
+  Example cycle_on_false_leaf :
+    evalR 100 D (atom 1000 (T 3)) = Some false /\
+    evalRg 100 D (RAnd (RAtom (atom 1000 (T 3))) (RNot (RAtom (atom 1000 (T 1))))) = Some false /\
+    evalRg 100 D (RAnd (RNot (RAtom (atom 1000 (T 3)))) (RNot (RAtom (atom 1000 (T 1))))) = Some true.
+  Proof. repeat split; reflexivity. Qed.
+End CycleFailExample.
